@@ -322,6 +322,28 @@ def eval_label(case):
         box['sl'] = NodeSliver()
         box['sl'].set_labels(edited())
     attempt('sliver.set_labels-edited-object', sliver_set, lambda: getattr(box['sl'].get_labels(), f) if box.get('sl') is not None and box['sl'].get_labels() is not None else None)
+    # ... as the details of a delegation / a pool
+    def deleg_set():
+        from fim.slivers.delegations import Delegation, Pool
+        box['dd'] = Delegation(atype=DelegationType.LABEL, delegation_id='d1')
+        box['dd'].set_details(edited())
+    attempt('delegation.set_details-edited-object', deleg_set,
+            lambda: getattr(box['dd'].get_details(), f) if box.get('dd') is not None and box['dd'].get_details() is not None else None)
+
+    def pool_set():
+        from fim.slivers.delegations import Pool
+        box['pp'] = Pool(atype=DelegationType.LABEL, pool_id='p1', delegation_id='d1', defined_on='n1', defined_for=['n2'])
+        box['pp'].set_pool_details(edited())
+    attempt('pool.set_pool_details-edited-object', pool_set,
+            lambda: getattr(box['pp'].get_pool_details(), f) if box.get('pp') is not None and box['pp'].get_pool_details() is not None else None)
+    if f == 'mac':
+        def gw():
+            from fim.slivers.gateway import Gateway
+            lab = Labels(ipv4_subnet='10.0.0.0/24', ipv4='10.0.0.1')
+            lab.mac = s
+            box['gw'] = None
+            box['gw'] = Gateway(lab)
+        attempt('gateway-edited-object', gw, lambda: box['gw'].mac if box.get('gw') is not None else None)
     # whatever was accepted can be encoded and decoded again
     if box.get('x') is not None:
         try:
